@@ -99,11 +99,12 @@ type Report struct {
 	MinDistinct  int // fewer distinct non-trivial cases than this ⇒ inconclusive
 	inconclusive []string
 	extra        map[string]any
+	patterns     map[string]map[string]int64
 }
 
 func NewReport(ctx *Ctx) *Report {
 	r := &Report{ctx: ctx, start: time.Now(), distinct: map[[16]byte]struct{}{}, counters: map[string]int64{}, maxSamples: 6,
-		knownHits: map[string]int{}, known: map[string]Finding{}, Level: "exploration", MinDistinct: 2, extra: map[string]any{}}
+		knownHits: map[string]int{}, known: map[string]Finding{}, Level: "exploration", MinDistinct: 2, extra: map[string]any{}, patterns: map[string]map[string]int64{}}
 	fs, err := LoadFindings()
 	if err != nil {
 		r.Inconclusive("cannot read known_findings.json: " + err.Error())
@@ -148,6 +149,18 @@ func (r *Report) Sample(s any) {
 	if len(r.samples) < r.maxSamples {
 		r.samples = append(r.samples, s)
 	}
+	r.mu.Unlock()
+}
+
+// NotePattern counts occurrences of a named observation class (distinct states/outcomes seen).
+func NotePattern(r *Report, group, v string) {
+	r.mu.Lock()
+	m := r.patterns[group]
+	if m == nil {
+		m = map[string]int64{}
+		r.patterns[group] = m
+	}
+	m[v]++
 	r.mu.Unlock()
 }
 
@@ -253,6 +266,23 @@ func (r *Report) Finish() int {
 		}
 		for k, v := range r.extra {
 			cov[k] = v
+		}
+		for g, m := range r.patterns {
+			cov["distinct_"+g] = len(m)
+			if len(m) <= 64 {
+				cov[g] = m
+			} else {
+				keys := make([]string, 0, len(m))
+				for k := range m {
+					keys = append(keys, k)
+				}
+				sort.Strings(keys)
+				sub := map[string]int64{}
+				for _, k := range keys[:64] {
+					sub[k] = m[k]
+				}
+				cov[g+"_first64"] = sub
+			}
 		}
 		if len(r.knownHits) > 0 {
 			cov["known_findings_observed"] = r.knownHits
